@@ -276,6 +276,15 @@ func (l *Lexer) readString(delimiter byte) string {
 						l.ReadChar() // consume second hex digit
 						// Convert hex digits to byte value
 						value := hexDigitValue(hex1)*16 + hexDigitValue(hex2)
+						if mustStayEscaped(value) || value >= 0x80 {
+							// keep the escape: the decoded character would end or corrupt the emitted
+							// literal, and a lone byte >= 0x80 is not valid UTF-8
+							result.WriteByte('\\')
+							result.WriteByte('x')
+							result.WriteByte(hex1)
+							result.WriteByte(hex2)
+							continue
+						}
 						result.WriteByte(byte(value))
 						continue
 					}
@@ -329,8 +338,8 @@ func (l *Lexer) readString(delimiter byte) string {
 						value = value*16 + hexDigitValue(digit)
 					}
 
-					// Validate Unicode range
-					if value > 0x10FFFF {
+					// Validate Unicode range (escapes whose value cannot be written raw are kept as they are)
+					if value > 0x10FFFF || mustStayEscaped(value) {
 						// Invalid Unicode code point - treat as literal
 						result.WriteByte('\\')
 						result.WriteByte('u')
@@ -364,6 +373,15 @@ func (l *Lexer) readString(delimiter byte) string {
 									l.ReadChar() // consume fourth hex digit
 									// Convert 4 hex digits to Unicode value
 									value := hexDigitValue(hex1)*4096 + hexDigitValue(hex2)*256 + hexDigitValue(hex3)*16 + hexDigitValue(hex4)
+									if mustStayEscaped(value) {
+										result.WriteByte('\\')
+										result.WriteByte('u')
+										result.WriteByte(hex1)
+										result.WriteByte(hex2)
+										result.WriteByte(hex3)
+										result.WriteByte(hex4)
+										continue
+									}
 									// Convert to UTF-8 and write the bytes
 									utf8Bytes := encodeUTF8(value)
 									for _, b := range utf8Bytes {
